@@ -175,14 +175,14 @@ class Facts:
 
     def hir_fn(self, path):
         """Find a HIR body by (crate-qualified) def path; fail closed when missing."""
-        crate = path.split("::")[0]
+        crate = path.lstrip("<&").split("::")[0]
         for b in self.hir(crate):
             if b["def"] == path:
                 return b
         return None
 
     def mir_fn(self, path):
-        crate = path.split("::")[0]
+        crate = path.lstrip("<&").split("::")[0]
         for b in self.mir(crate):
             if b["def"] == path:
                 return b
